@@ -168,6 +168,33 @@ class _Subst(ast.NodeTransformer):
         return n
 
 
+def _unroll_literal_loops(body: list[ast.stmt]) -> list[ast.stmt]:
+    """`for h in (a, b): if h.takes(x): ...; return` - a loop over a literal of names that returns from inside, which no
+    early-exit rewriting can turn into tail returns - is written out, one copy of the body per element (the loop variable
+    must not be stored in the body nor read after the loop; no break / continue / else)"""
+    out: list[ast.stmt] = []
+    for i, st in enumerate(body):
+        later = {n.id for x in body[i + 1 :] for n in ast.walk(x) if isinstance(n, ast.Name)}
+        if (
+            isinstance(st, ast.For)
+            and not st.orelse
+            and isinstance(st.target, ast.Name)
+            and isinstance(st.iter, (ast.Tuple, ast.List))
+            and 1 <= len(st.iter.elts) <= 6
+            and all(isinstance(e, ast.Constant) or _dotted_chain(e) for e in st.iter.elts)
+            and any(isinstance(n, ast.Return) for n in ast.walk(st))
+            and not any(isinstance(n, (ast.Break, ast.Continue, ast.FunctionDef, ast.AsyncFunctionDef, ast.Lambda)) for n in ast.walk(st))
+            and not any(isinstance(n, ast.Name) and isinstance(n.ctx, ast.Store) and n.id == st.target.id for b in st.body for n in ast.walk(b))
+            and st.target.id not in later
+        ):
+            for e in st.iter.elts:
+                for b in st.body:
+                    out.append(_Subst({st.target.id: e}, {}).visit(copy.deepcopy(b)))
+        else:
+            out.append(st)
+    return out
+
+
 def _ladder(body: list[ast.stmt]) -> list[ast.stmt] | None:
     """straight-line statements followed by `if c: return a` guards and a final `return z` -> the same with one
     `return a if c else (... z)`"""
@@ -347,6 +374,7 @@ class Inliner:
                     for x in ast.walk(st):
                         x._orig_mod = u.module.rel  # type: ignore[attr-defined]
             body = [_Subst(mapping, rename).visit(st) for st in body]
+            body = _unroll_literal_loops(body)
             return body, pre
 
         def splice(stmts: list[ast.stmt]) -> list[ast.stmt]:
